@@ -348,3 +348,185 @@ Proof.
     + pose proof (sim_rank_bound nbsimu nvar (fst p) (snd p) icase ltac:(tauto) ltac:(tauto) Hc). lia.
   - apply In_var_pairs; simpl; try lia.
 Qed.
+
+(* ---------------------------------------------------------------- absolute rank vs rank among active samples *)
+Section MASK.
+Context {A : Type} (active : A -> bool).
+
+Lemma filter_len_le (l : list A) : (length (filter active l) <= length l)%nat.
+Proof. induction l as [|a l IH]; simpl; [lia|]. destruct (active a); simpl; lia. Qed.
+Lemma rank_active_le i l : (rank_active active i l <= i)%nat.
+Proof.
+  unfold rank_active. etransitivity; [apply filter_len_le|]. apply firstn_le_length.
+Qed.
+
+(* index map: the active sample of absolute rank i sits at position rank_active i in the compressed vector *)
+Lemma nth_rank_active d : forall l i, (i < length l)%nat -> active (nth i l d) = true ->
+  nth (rank_active active i l) (filter active l) d = nth i l d.
+Proof.
+  induction l as [|a l IH]; intros i Hi Ha; [simpl in Hi; lia|].
+  destruct i as [|i].
+  - unfold rank_active. simpl in *. rewrite Ha. reflexivity.
+  - unfold rank_active in *. simpl firstn. simpl filter. simpl in Ha, Hi.
+    destruct (active a); simpl; apply IH; try lia; exact Ha.
+Qed.
+
+Lemma rank_active_lt d : forall l i, (i < length l)%nat -> active (nth i l d) = true ->
+  (rank_active active i l < length (filter active l))%nat.
+Proof.
+  induction l as [|a l IH]; intros i Hi Ha; [simpl in Hi; lia|].
+  destruct i as [|i].
+  - unfold rank_active. simpl in *. rewrite Ha. simpl. lia.
+  - unfold rank_active in *. simpl firstn. simpl filter. simpl in Ha, Hi.
+    specialize (IH i ltac:(lia) Ha). destruct (active a); simpl; lia.
+Qed.
+
+(* both numberings agree exactly when no sample before i is masked *)
+Lemma rank_active_id l i : (i <= length l)%nat ->
+  (rank_active active i l = i <-> forallb active (firstn i l) = true).
+Proof.
+  revert i. induction l as [|a l IH]; intros i Hi.
+  - assert (i = 0)%nat by (simpl in Hi; lia). subst. unfold rank_active. simpl. tauto.
+  - destruct i as [|i]; [unfold rank_active; simpl; tauto|].
+    unfold rank_active in *. simpl firstn. simpl filter. simpl forallb. simpl in Hi.
+    destruct (active a) eqn:Ea; simpl.
+    + rewrite <- (IH i) by lia. split; intro H; lia.
+    + split; [|discriminate]. intro H.
+      pose proof (rank_active_le i l) as L. unfold rank_active in L. lia.
+Qed.
+
+End MASK.
+
+(* ---------------------------------------------------------------- _updateData2ToTarget (point output) *)
+Lemma find_close_spec eps2 c : forall data ip k,
+  find_close eps2 c data ip = Some k <->
+  (ip <= k < ip + length data)%nat /\ is_close eps2 c (nth (k - ip) data no_datum) = true /\
+  (forall j, (j < k - ip)%nat -> is_close eps2 c (nth j data no_datum) = false).
+Proof.
+  induction data as [|d r IH]; intros ip k; simpl.
+  - split; [discriminate| intros [H _]; lia].
+  - destruct (is_close eps2 c d) eqn:E.
+    + split.
+      * intro H. injection H as <-. rewrite Nat.sub_diag.
+        split; [lia|]. split; [exact E|]. intros j Hj; lia.
+      * intros (H1 & H2 & H3). destruct (Nat.eq_dec k ip) as [->|N]; [reflexivity|].
+        specialize (H3 O ltac:(lia)). simpl in H3. congruence.
+    + rewrite IH. split.
+      * intros (H1 & H2 & H3). replace (k - ip)%nat with (S (k - S ip)) by lia.
+        split; [lia|]. split; [exact H2|]. intros [|j] Hj; [exact E| apply H3; lia].
+      * intros (H1 & H2 & H3). assert (k <> ip).
+        { intro; subst. rewrite Nat.sub_diag in H2. congruence. }
+        replace (k - ip)%nat with (S (k - S ip)) in H2, H3 by lia.
+        split; [lia|]. split; [exact H2|]. intros j Hj. apply (H3 (S j)). lia.
+Qed.
+
+(* searching the vectors compressed by the selection yields the rank AMONG ACTIVE samples of the datum
+   found by the search over absolute ranks: using it as an absolute rank is wrong as soon as a sample
+   located before it is masked (rank_active_id) *)
+Lemma find_close_compressed eps2 c : forall data ip0 ip,
+  find_close eps2 c (filter d_active data) ip0 =
+  match find_close eps2 c data ip with
+  | Some k => Some (ip0 + rank_active d_active (k - ip) data)%nat
+  | None => None
+  end.
+Proof.
+  induction data as [|d r IH]; intros ip0 ip; [reflexivity|].
+  simpl filter. destruct (d_active d) eqn:Ea.
+  - cbn [find_close]. destruct (is_close eps2 c d) eqn:E.
+    + rewrite Nat.sub_diag. unfold rank_active. simpl. f_equal. lia.
+    + rewrite (IH (S ip0) (S ip)). destruct (find_close eps2 c r (S ip)) as [k|] eqn:Ek; [|reflexivity].
+      apply find_close_spec in Ek. destruct Ek as (H1 & _).
+      replace (k - ip)%nat with (S (k - S ip)) by lia. unfold rank_active. simpl. rewrite Ea. simpl. f_equal. lia.
+  - cbn [find_close]. assert (E : is_close eps2 c d = false) by (unfold is_close; rewrite Ea; reflexivity).
+    rewrite E. rewrite (IH ip0 (S ip)). destruct (find_close eps2 c r (S ip)) as [k|] eqn:Ek; [|reflexivity].
+    apply find_close_spec in Ek. destruct Ek as (H1 & _).
+    replace (k - ip)%nat with (S (k - S ip)) by lia. unfold rank_active. simpl. rewrite Ea. reflexivity.
+Qed.
+
+Lemma find_close_compressed0 eps2 c data :
+  find_close eps2 c (filter d_active data) 0 =
+  match find_close eps2 c data 0 with
+  | Some k => Some (rank_active d_active k data)
+  | None => None
+  end.
+Proof.
+  rewrite (find_close_compressed eps2 c data 0 0).
+  destruct (find_close eps2 c data 0); [rewrite Nat.sub_0_r|]; reflexivity.
+Qed.
+Lemma find_close_spec0 eps2 c data k :
+  find_close eps2 c data 0 = Some k <->
+  (0 <= k < 0 + length data)%nat /\ is_close eps2 c (nth (k - 0) data no_datum) = true /\
+  (forall j, (j < k - 0)%nat -> is_close eps2 c (nth j data no_datum) = false).
+Proof. exact (find_close_spec eps2 c data 0 k). Qed.
+
+(* the copy honours the first active datum within eps - whatever the masks - with its own value *)
+Lemma copy_exact nbsimu nvar icase eps2 data c (r : row) k isimu ivar v :
+  (0 <= isimu < nbsimu)%Z -> (0 <= ivar < nvar)%Z -> (0 <= icase)%Z ->
+  (nbsimu * nvar * (icase + 1) <= Z.of_nat (length r))%Z ->
+  find_close eps2 c data 0 = Some k ->
+  nth (Z.to_nat ivar) (d_z (nth k data no_datum)) None = Some v ->
+  get_item (update_point_target nbsimu nvar icase eps2 data true c r) (sim_rank isimu ivar icase nbsimu nvar) = Some v.
+Proof.
+  intros Hi Hv Hc Hlen Hf Hz. unfold update_point_target. simpl negb. cbn iota. rewrite Hf.
+  set (item := fun p : Z * Z => sim_rank (fst p) (snd p) icase nbsimu nvar).
+  change (sim_rank isimu ivar icase nbsimu nvar) with (item (isimu, ivar)).
+  rewrite pw_update_get.
+  - simpl. rewrite Hz. reflexivity.
+  - apply NoDup_sim_items; lia.
+  - intros p Hp. apply In_sim_pairs in Hp; try lia. unfold item. split.
+    + apply sim_rank_nonneg; lia.
+    + pose proof (sim_rank_bound nbsimu nvar (fst p) (snd p) icase ltac:(tauto) ltac:(tauto) Hc). lia.
+  - apply In_sim_pairs; simpl; lia.
+Qed.
+
+(* a masked target is left untouched, a target with no active datum within eps as well *)
+Lemma copy_untouched nbsimu nvar icase eps2 data t_active c (r : row) :
+  t_active = false \/ find_close eps2 c data 0 = None ->
+  update_point_target nbsimu nvar icase eps2 data t_active c r = r.
+Proof.
+  intros [->|H]; unfold update_point_target; [reflexivity|]. destruct t_active; [rewrite H|]; reflexivity.
+Qed.
+
+Lemma map_eq_nth {A B} (f : A -> option B) d d' : forall l l' k,
+  map f l = map Some l' -> (k < length l)%nat -> f (nth k l d) = Some (nth k l' d').
+Proof.
+  induction l as [|a l IH]; intros [|b l'] k E Hk; simpl in *; try lia; try discriminate.
+  injection E as E1 E2. destruct k as [|k]; [exact E1| apply IH; [exact E2| lia]].
+Qed.
+
+(* C13_cond_exact for arbitrary masks: the neighbourhood is made of the ACTIVE samples; the datum is
+   designated by its ABSOLUTE rank i; its weight sits at the rank of i among the active samples *)
+Lemma cond_exact_masked nbsimu nvar icase (act : list bool) (rows : list row) (wgt : list (list Q)) (target : row)
+      (df : Z -> Z -> list Q) (i : nat) (isimu ivar : Z) (zk snc : Q) :
+  let all := combine act rows in
+  let nb := map snd (filter fst all) in
+  let k := rank_active fst i all in
+  length act = length rows -> (i < length rows)%nat -> nth i act false = true ->
+  (0 <= isimu < nbsimu)%Z -> (0 <= ivar < nvar)%Z -> (0 <= icase)%Z ->
+  (forall s jv, (0 <= s < nbsimu)%Z -> (0 <= jv < nvar)%Z ->
+     map (fun r => get_item r (sim_rank s jv icase nbsimu nvar)) nb = map Some (df s jv) /\
+     length (df s jv) = length nb) ->
+  (Z.to_nat nvar * length nb <= length wgt)%nat ->
+  (forall lec, (lec < length wgt)%nat ->
+     nth (Z.to_nat ivar) (nth lec wgt []) 0 == if Nat.eqb lec (Z.to_nat ivar * length nb + k) then 1 else 0) ->
+  get_item (nth i rows []) (sim_rank isimu ivar icase nbsimu nvar) = Some (snc - zk) ->
+  get_item target (sim_rank isimu ivar icase nbsimu nvar) = Some snc ->
+  (nbsimu * nvar * (icase + 1) <= Z.of_nat (length target))%Z ->
+  exists t' v, simulate_calcul nbsimu nvar icase nb wgt target = Some t' /\
+               get_item t' (sim_rank isimu ivar icase nbsimu nvar) = Some v /\ v == zk.
+Proof.
+  intros all nb k Hl Hi Ha Hs Hv Hc Hdef Hw Hunit Hd Ht Hlen.
+  assert (Hil : (i < length all)%nat) by (unfold all; rewrite combine_length, Hl, Nat.min_id; exact Hi).
+  assert (Hnth : nth i all (false, []) = (true, nth i rows [])).
+  { unfold all. rewrite combine_nth by exact Hl. rewrite Ha. reflexivity. }
+  assert (Hk : nth k (filter fst all) (false, []) = (true, nth i rows [])).
+  { unfold k. rewrite nth_rank_active; [exact Hnth| exact Hil| exact (f_equal fst Hnth)]. }
+  assert (Hkl : (k < length nb)%nat).
+  { unfold nb. rewrite map_length. unfold k. apply (rank_active_lt fst (false, [])); [exact Hil| exact (f_equal fst Hnth)]. }
+  assert (Hrow : nth k nb [] = nth i rows []).
+  { unfold nb. change (@nil (option Q)) with (snd (false, @nil (option Q))). rewrite map_nth, Hk. reflexivity. }
+  apply (cond_exact nbsimu nvar icase nb wgt target df k isimu ivar zk snc); try assumption.
+  destruct (Hdef isimu ivar Hs Hv) as [E L].
+  pose proof (map_eq_nth (fun r => get_item r (sim_rank isimu ivar icase nbsimu nvar)) [] 0 nb (df isimu ivar) k E Hkl) as E'.
+  rewrite Hrow, Hd in E'. injection E' as E'. rewrite <- E'. reflexivity.
+Qed.
